@@ -28,10 +28,10 @@ Proof.
   - apply call_v0_logs_ok. exact H2.
 Qed.
 
-Theorem v0_history_total : forall cs (s : S0) f a m e, state_ok s ->
+Theorem v0_history_total : forall cs (s : S0) f a m e, args_wf (sig0 f) a -> state_ok s ->
   safe (call_v0 f a) (perturb (run0 cs s) m e).
 Proof.
-  intros cs s f a m e H. apply call_v0_safe.
+  intros cs s f a m e Hwf H. apply call_v0_safe; [exact Hwf|].
   assert (L : forall cs' (s' : S0), state_ok s' -> state_ok (run0 cs' s')).
   { induction cs' as [|[[[f' a'] m'] e'] t IH]; intros s' H'; cbn [run0]; [exact H'|].
     apply IH. apply call_v0_state_ok. exact H'. }
@@ -57,12 +57,12 @@ Lemma resume_v1_ok : forall r (s : st H1), v1_ok s -> v1_ok (fst (resume r s)).
 Proof.
   intros r s (Hrv & Hent & Hep). dst s. unfold v1_ok in *.
   cbn [hs HostV0.h_limit HostV0.h_ext HostV1.x_rv HostV1.x_is HostV1.is_entries HostV1.x_entrypoint] in Hrv, Hent, Hep.
-  unfold resume, migrate. destruct r; mstep1; proj_red1; cbn [HostV1.is_entries]; auto.
+  unfold resume, migrate, too_many_if. destruct r; mstep1; proj_red1; cbn [HostV1.is_entries]; auto.
 Qed.
 Lemma resume_logs_ok : forall r (s : st H1), logs_ok s -> logs_ok (fst (resume r s)).
 Proof.
   intros r s [H1 H2]. dst s. unfold logs_ok in *. cbn [hs HostV0.h_logs HostV0.h_limit] in H1, H2.
-  unfold resume, migrate. destruct r; mstep1; proj_red1; auto.
+  unfold resume, migrate, too_many_if. destruct r; mstep1; proj_red1; auto.
 Qed.
 
 Theorem v1_history_inv : forall os (s : st H1), v1_ok s -> logs_ok s -> v1_ok (run1 os s) /\ logs_ok (run1 os s).
@@ -77,9 +77,9 @@ Proof.
   - destruct s as [? ? ? []]. unfold logs_ok. cbn. split; [intros; lia | constructor].
 Qed.
 
-Theorem v1_history_total : forall os (s : st H1) f a m e, v1_ok s -> logs_ok s ->
+Theorem v1_history_total : forall os (s : st H1) f a m e, args_wf (sig1 f) a -> v1_ok s -> logs_ok s ->
   safe (call_v1 f a) (perturb (run1 os s) m e).
 Proof.
-  intros os s f a m e H1 H2. apply call_v1_safe.
+  intros os s f a m e Hwf H1 H2. apply call_v1_safe; [exact Hwf|].
   destruct (v1_history_inv os s H1 H2) as [H _]. exact H.
 Qed.
